@@ -37,7 +37,7 @@ ASSUMPTIONS = [
     'inside buffered write() calls is not explored',
     'step budget per file 6e6 + 4000*len(file) monitored events (PY_START + JUMP)',
 ]
-PROBES = ['symlinked_input', 'hidden_or_glob_name', 'damaged_file_fault_fired', 'exception_in_converter', 'failed_after_output_began', 'two_inputs_one_output', 'worker_ge3_tasks',
+PROBES = ['allocation_failed_under_memory_limit', 'symlinked_input', 'hidden_or_glob_name', 'damaged_file_fault_fired', 'exception_in_converter', 'failed_after_output_began', 'two_inputs_one_output', 'worker_ge3_tasks',
           'bad_file_first', 'channel_subset_overlap', 'jobs_gt_files', 'jobs_eq_1', 'foreign_file', 'other_format_file', 'subdir', 'ignored_result',
           'schedule_explicit', 'clock_skew', 'healthy_converted']
 
@@ -307,6 +307,25 @@ def _execute(scenario, res, br):
         collisions = set()
         colliding_inputs = set()
         union = None
+    # A failing allocation (the simulated machine's finite address space) is an injected fault: whether a damaged length field
+    # asking read() for gigabytes fails depends on what the process holds already, so it may differ between one long-lived
+    # process and a fresh one.  Relaxed narrowly: in a scenario where an allocation failed in some run, the DAMAGED files' own
+    # results and outputs are not compared across runs; every other file's still are (and (1), (2) above stay in force).
+    alloc_failed = any(rr[1].get('alloc_failures') for rr in runs.values()) or \
+        any(r.get('alloc_failures') for r in (alone or {}).values())
+    skip_rel = set()
+    if alloc_failed:
+        res.probe('allocation_failed_under_memory_limit')
+        res.fault('allocation_failure')
+        skip_rel = {rel for rel in inputs if meta[rel]['faulted']}
+    skip_out = set()
+    if skip_rel:
+        if alone is not None:
+            for rel in skip_rel:
+                skip_out.update(alone[rel]['tree'])
+        stems = {os.path.splitext(rel)[0] for rel in skip_rel} | skip_rel
+        for name_, (run_, r_) in ok_runs.items():
+            skip_out.update(p_ for p_ in r_['tree'] if any(p_.startswith(st) for st in stems))
     # ---- (3) per-file result equal in A, B, C
     names = sorted(ok_runs)
     base_name = None
@@ -314,7 +333,7 @@ def _execute(scenario, res, br):
         run, r = ok_runs[name]
         for rel in inputs:
             got = r['results'].get(rel)
-            if got is None:
+            if got is None or rel in skip_rel:
                 continue
             want = ref.get(rel) if ref else None
             if want is not None:
@@ -328,20 +347,20 @@ def _execute(scenario, res, br):
         for name in names[1:]:
             b = ok_runs[name][1]
             for rel in inputs:
-                if rel in a['results'] and rel in b['results'] and a['results'][rel] != b['results'][rel]:
+                if rel not in skip_rel and rel in a['results'] and rel in b['results'] and a['results'][rel] != b['results'][rel]:
                     res.violation('result-differs', f'{names[0]} vs {name}: result for {rel} differs', mode='seq-vs-pool', fields='', against='seq',
                                   channel_subset=bool(cfg['channels']), **facts0)
     # ---- (4) output trees
     for name in names:
         run, r = ok_runs[name]
-        tree = {p: t for p, t in r['tree'].items() if p not in collisions}
-        want = union
+        tree = {p: t for p, t in r['tree'].items() if p not in collisions and p not in skip_out}
+        want = union if union is None else {p: t for p, t in union.items() if p not in skip_out}
         against = 'alone'
         if want is None:
             other = ok_runs[names[0]][1]
             if name == names[0]:
                 continue
-            want = {p: t for p, t in other['tree'].items() if p not in collisions}
+            want = {p: t for p, t in other['tree'].items() if p not in collisions and p not in skip_out}
             against = names[0]
         if tree != want:
             missing = sorted(set(want) - set(tree))
